@@ -164,9 +164,33 @@ func wedgeScenario(w *World, p *Plan, rec *Record) {
 		if len(w.Nodes) >= 3 {
 			kinds = append(kinds, "rejoin", "rejoin")
 		}
+		if w.Cfg.ChanCap > 0 {
+			kinds = append(kinds, "sync", "sync", "sync")
+		}
 		kind := kinds[r.Intn(len(kinds))]
 		tag := kind
 		switch kind {
+		case "sync":
+			// a fresh node loads the ledger from n through the real sync client; the stream may carry a vertex the
+			// loader refuses while more vertices than its buffer holds are still arriving. Whatever the loader
+			// decides, the sync call has to return
+			fk := []string{"none", "dup-vertex", "dup-trx", "tampered-signature", "dup-vertex"}[r.Intn(5)]
+			depth := 0
+			if s := w.snapshot(n); s != nil {
+				depth = len(s.Live)
+			}
+			if fk != "none" {
+				w.Net.StreamFault = &StreamFault{Kind: fk, Index: r.Intn(depth + 1)}
+			}
+			j := w.addNode()
+			err := w.joinNode(j.Idx, n.Idx)
+			w.Net.StreamFault = nil
+			tag = "sync:" + fk
+			samples = append(samples, fmt.Sprintf("sync:%s:%v", fk, err == nil))
+			w.probe("c08-sync-round")
+			if len(w.stuck) == 0 {
+				w.stopNode(j.Idx)
+			}
 		case "rejoin":
 			// two members refresh their peer tables from the genesis node at the same moment (as after a healed
 			// partition): each learns of the other and announces itself to it
@@ -332,7 +356,7 @@ func wedgeScenario(w *World, p *Plan, rec *Record) {
 		w.violate("C08", "no-return", opKind(o.name), o.node, "operation %s did not return", o.name)
 	}
 	w.checkFatal(w.Faults["disk-error"] > 0)
-	rec.Nontrivial = w.Probes["c08-early-exit-or-cancel"] > 0 || w.Probes["c08-stream-consumed"] > 0 || w.Probes["c08-burst-of-admissions"] > 0 || w.Probes["c08-simultaneous-rejoin"] > 0
+	rec.Nontrivial = w.Probes["c08-early-exit-or-cancel"] > 0 || w.Probes["c08-stream-consumed"] > 0 || w.Probes["c08-burst-of-admissions"] > 0 || w.Probes["c08-simultaneous-rejoin"] > 0 || w.Probes["c08-sync-round"] > 0
 	rec.Sample = samples
 	_ = accountant.ErrBreak
 }
@@ -359,6 +383,10 @@ func init() {
 			if r.Chance(0.6) {
 				cfg.SignalBuf = uint64(1 + r.Intn(3)) // short truncate-signal channel (shipped: 50)
 			}
+		}
+		if r.Chance(0.35) {
+			// the sync loader's vertex buffer (shipped: 1000) and the DAG stream's (100) scaled to these ledgers
+			cfg.ChanCap = 1 + r.Intn(3)
 		}
 		return &Plan{Scenario: "wedge", Cfg: cfg}
 	}
